@@ -16,7 +16,8 @@ import os, sys, re, json, time, shutil, subprocess, hashlib, concurrent.futures 
 
 VERIF = os.path.dirname(os.path.dirname(os.path.abspath(__file__)))
 REPO = os.environ.get("VERIF_REPO", "/repo")
-BUILD = os.path.join(VERIF, "build")
+OUT = os.environ.get("VERIF_OUT", VERIF)   # self-tests redirect build/evidence/replays away from /verif
+BUILD = os.path.join(OUT, "build")
 TOOLS = os.path.join(VERIF, "tools")
 CLANG = "clang++-14"; OPT = "opt-14"
 CLANG_FLAGS = ["-O0", "-std=c++11", "-DHAVE_CONFIG_H", "-fno-access-control", "-fno-discard-value-names",
@@ -468,7 +469,8 @@ def run_check(prop, tier, tasks, units, level, extra_assumptions=(), trusted_bas
     if max_workers: set_cbmc_slots(max_workers)
     seed = int(os.environ.get("VERIF_SEED", "0") or 0)
     os.makedirs(os.path.join(BUILD, prop), exist_ok=True)
-    ev_path = os.path.join(VERIF, "evidence", prop + ".json")
+    os.makedirs(os.path.join(OUT, "evidence"), exist_ok=True)
+    ev_path = os.path.join(OUT, "evidence", prop + ".json")
     results = []; tool_problems = []
     # -- build units in parallel
     with cf.ThreadPoolExecutor(max_workers=NCPU) as ex:
@@ -492,7 +494,7 @@ def run_check(prop, tier, tasks, units, level, extra_assumptions=(), trusted_bas
     bytask = {t.id: t for t in tasks}
     # -- triage refutations
     known = load_known(prop)
-    rdir = os.path.join(VERIF, "replays", prop)
+    rdir = os.path.join(OUT, "replays", prop)
     shutil.rmtree(rdir, ignore_errors=True)
     violations = []; known_hits = []
     for r in results:
